@@ -72,9 +72,21 @@ def growKind : Op → Bool
 def createdOf (evs : List PEv) : List (P × Bool) :=
   evs.filterMap (fun e => if e.cls.eventType = "created" then some (e.src, e.cls.isDirectory) else none)
 
-/-- executable twin of the hypothesis of `burst_grow` -/
+/-- executable twin of the hypothesis of the Windows layer's `burst_grow` -/
 def allGrowB (s : Sys) (ops : List Op) : Bool :=
   (ops.foldl (fun (acc : FS × Bool) op => ((kernelOp acc.1 s.k op).1, acc.2 && validOp acc.1 op && growKind op)) (s.fs, true)).2
+
+/-- operations that touch an entry without changing the tree: writing a file, changing attributes -/
+def touchKind : Op → Bool
+  | .write _ | .chmod _ => true
+  | _ => false
+
+/-- a populate burst: directories and files are created (at any depth), files written, attributes changed -/
+def fillKind (op : Op) : Bool := growKind op || touchKind op
+
+/-- executable twin of the hypothesis of `burst_grow` -/
+def allFillB (s : Sys) (ops : List Op) : Bool :=
+  (ops.foldl (fun (acc : FS × Bool) op => ((kernelOp acc.1 s.k op).1, acc.2 && validOp acc.1 op && fillKind op)) (s.fs, true)).2
 
 /-- "created and immediately renamed": `mkdir p; rename p q`, both parents directories of the tree, `q` a free name -/
 def mkRenameB (s : Sys) (b : List Op) : Bool :=
@@ -111,7 +123,7 @@ def renameChainB (s : Sys) (b : List Op) : Bool :=
     renamed at once, a directory of the tree renamed twice in a row, or one valid operation other than the removal of
     the root -/
 def okBurstB (s : Sys) (b : List Op) : Bool :=
-  allFileB s b || allGrowB s b || mkRenameB s b || moveInRenameB s b || renameChainB s b ||
+  allFileB s b || allFillB s b || mkRenameB s b || moveInRenameB s b || renameChainB s b ||
     (match b with
      | [op] => validOp s.fs op && (op != .rmdir ["W"])
      | _ => false)
